@@ -23,8 +23,16 @@ def packet(sid):
     return wire.usb_packet(wire.can_id(2, 127250, 1 + sid % 3, 255), clientkit.heading_data(sid, 10000 + 3 * sid))
 
 
+def packet_with(sid, heading_raw):
+    return wire.usb_packet(wire.can_id(2, 127250, 1 + sid % 3, 255), clientkit.heading_data(sid, heading_raw))
+
+
 def items(seed=0):
     p1, p2, p3 = packet(10), packet(11), packet(12)
+    # a valid packet whose last (checksum) byte is 0xAA: followed by noise that starts with 0x55 the
+    # stream shows 'AA 55' across the packet end although neither the packet nor the noise contains it
+    p4 = next(packet_with(sid, hr) for sid in range(1, 250) for hr in (10000, 20000, 30000)
+              if packet_with(sid, hr)[19] == 0xAA and MARK not in packet_with(sid, hr)[2:])
     for p in (p1, p2, p3):
         assert MARK not in p[2:], "valid packets must not contain the marker after the header"
         assert not p.endswith(b"\xaa")
@@ -37,7 +45,7 @@ def items(seed=0):
     c1c = bytearray(p1)
     c1c[19] ^= 0x80
     it = collections.OrderedDict()
-    it["P1"], it["P2"], it["P3"] = p1, p2, p3
+    it["P1"], it["P2"], it["P3"], it["P4"] = p1, p2, p3, p4
     it["C1d"], it["C1c"] = bytes(c1d), bytes(c1c)
     it["T1"], it["T7"], it["T19"] = p1[:19], p1[:13], p1[:1]
     it["M7"] = p1[:8] + p1[15:]
@@ -46,12 +54,15 @@ def items(seed=0):
     it["NM"] = b"\x01\xaa\x55\x02\x03"
     it["NA"] = b"\x01\x02\xaa"
     it["N55AA"] = b"\x55\xaa"
+    it["N55"] = b"\x55\x01\x02"
+    # well-framed packet (valid header and checksum) that makes the decoder raise: fast-packet PGN without data
+    it["RZ"] = wire.usb_packet(wire.can_id(3, 130816, 1, 255), b"")
     sv = common.seeded_values(seed, 1, 8 * 23, "c20noise")[0].to_bytes(23, "big")
     it["NS"] = sv                                                           # seeded 'arbitrary' noise
     return it
 
 
-VALID = ("P1", "P2", "P3")
+VALID = ("P1", "P2", "P3", "P4")
 
 
 def pending_bytes(client):
@@ -302,7 +313,7 @@ def plan_tasks(ctx):
     if ctx.thorough:
         for i in range(0, len(s3), 40):
             tasks.append(("a", (s3[i:i + 40], 1, ctx.seed)))
-        core = ["P1", "P2", "C1d", "T7", "T1", "N19", "NM", "NA", "N150"]
+        core = ["P1", "P4", "C1d", "T7", "T1", "N19", "NM", "N55", "RZ", "N150"]
         s4 = list(itertools.product(core, repeat=4))
         for i in range(0, len(s4), 200):
             tasks.append(("a", (s4[i:i + 200], 0, ctx.seed)))
@@ -341,7 +352,7 @@ def run(ctx):
         "states": b["states"] + streams, "transitions": b["transitions"] + runs,
         "traces_validated_against_impl": b["transitions"] + runs, "evaluations": b["transitions"] + runs,
         "distinct_nontrivial": nontriv + b["states"], "distinct_outcomes": outcomes,
-        "rule": "(a) one execution per (stream over the 18-item alphabet, segmentation); non-trivial = stream mixes valid packets with "
+        "rule": "(a) one execution per (stream over the 22-item alphabet, segmentation); non-trivial = stream mixes valid packets with "
                 "disturbances. (b) BFS over chunk sequences, state = content of the bytes the client holds back; every state counted",
         "samples": samples,
         "part_b": b,
